@@ -692,7 +692,7 @@ def gen_graph(g, p):
     for i in range(p):
         for j in range(p):
             if W[i, j] != 0:
-                out[i, j] = G.signed_weight(g)
+                out[i, j] = G.signed_weight(g) if g.random() < 0.9 else g.choice([1e-13, 3e-9, -1e-9])
     return out
 
 
